@@ -442,8 +442,12 @@ class NumpyBackend(BackendBase[NumericArray]):
             """Special sympy printer returning numpy arrays."""
 
             def _print_ImmutableDenseNDimArray(self, arr):
-                arrays = ", ".join(f"asarray({self._print(expr)})" for expr in arr)
-                return f"array(broadcast_arrays({arrays}))"
+                # broadcast all components at once, so constant components are
+                # compatible with those that depend on array-valued arguments
+                flat = arr.reshape(len(arr))
+                arrays = ", ".join(f"asarray({self._print(expr)})" for expr in flat)
+                stacked = f"array(broadcast_arrays({arrays}))"
+                return f"(lambda a: a.reshape({arr.shape} + a.shape[1:]))({stacked})"
 
         printer = NumpyArrayPrinter(
             {
